@@ -36,3 +36,117 @@ MUTANTS = [
     dict(id="c13-revert-c12-fix", prop=["C13", "C12"], file="eqsig/fns/peaks_and_crossings.py",
          old="    peak_values_set = [peak_values[0]]", new="    peak_values_set = [0]", why="reverts fix C12-F1 (power-law functions inherit it)"),
 ]
+
+# ---------------------------------------------------------------------------
+# window mutants (round 5: a code path that only exists inside a window of sizes) - thresholds are arbitrary on purpose
+MUTANTS += [
+    dict(id="c13-w-delta-seam-2500peaks", prop="C13", file="eqsig/fns/peaks_and_crossings.py",
+         old="    delta_peaks = np.diff(peak_values)\n    delta_peaks = np.insert(delta_peaks, 0, 0)\n",
+         new="    if len(peak_values) > 2500:\n"
+             "        # long records: difference the peak values block by block\n"
+             "        delta_peaks = np.concatenate([np.insert(np.diff(peak_values[i0:i0 + 1000]), 0, 0)\n"
+             "                                      for i0 in range(0, len(peak_values), 1000)])\n"
+             "    else:\n"
+             "        delta_peaks = np.diff(peak_values)\n"
+             "        delta_peaks = np.insert(delta_peaks, 0, 0)\n",
+         why="window: more than 2500 local peaks -> blocked differencing that loses the change across every block seam"),
+    dict(id="c13-w-cyclic-phase-20000peaks", prop="C13", file="eqsig/fns/peaks_and_crossings.py",
+         old="    signs = np.where(np.mod(np.arange(len(peak_values)), 2), -1, 1)",
+         new="    if len(peak_values) > 20000:\n"
+             "        signs = np.where(np.mod(np.arange(len(peak_values)) % 4095, 2), -1, 1)  # sign pattern built per block of peaks\n"
+             "    else:\n"
+             "        signs = np.where(np.mod(np.arange(len(peak_values)), 2), -1, 1)",
+         why="window: more than 20000 local peaks -> alternating sign restarts every 4095 peaks (odd block: phase flips from the 2nd block on)"),
+    dict(id="c13-w-delta-f32-250000", prop="C13", file="eqsig/fns/peaks_and_crossings.py",
+         old="    values = np.array(values)\n    # rebase to zero as first value\n    values -= values[0]\n    # remove all non-changing values\n    cleaned_values, non_zero_indices = clean_out_non_changing(values)\n    cleaned_values *= np.sign(cleaned_values[1])  # ensure first value is increasing\n    # compute delta peaks for cleaned data\n    cleaned_delta_peak_series = determine_peak_only_delta_series_4_cleaned_data",
+         new="    values = np.array(values)\n    if len(values) > 250000 and values.dtype == np.float64:\n        values = values.astype(np.float32)  # halve the memory of the working copies of very long records\n    # rebase to zero as first value\n    values -= values[0]\n    # remove all non-changing values\n    cleaned_values, non_zero_indices = clean_out_non_changing(values)\n    cleaned_values *= np.sign(cleaned_values[1])  # ensure first value is increasing\n    # compute delta peaks for cleaned data\n    cleaned_delta_peak_series = determine_peak_only_delta_series_4_cleaned_data",
+         why="window: more than 250000 samples -> single-precision working copy in the delta series"),
+    dict(id="c13-w-ncyc-carry-1200peaks", prop="C13", file="eqsig/im.py",
+         old="    n_eq = np.cumsum(perc, axis=0)\n",
+         new="    if perc.shape[0] > 1200:\n"
+             "        parts = []\n"
+             "        carry = 0.0\n"
+             "        for i0 in range(0, perc.shape[0], 256):\n"
+             "            cum_blk = np.cumsum(perc[i0:i0 + 256], axis=0)\n"
+             "            parts.append(cum_blk + carry)\n"
+             "            carry = cum_blk[-1]\n"
+             "        n_eq = np.concatenate(parts, axis=0)\n"
+             "    else:\n"
+             "        n_eq = np.cumsum(perc, axis=0)\n",
+         why="window: more than 1200 switched peaks -> blocked cumulative sum whose carry is wrong from the third block on"),
+    dict(id="c13-w-ncyc-submax-5000", prop="C13", file="eqsig/im.py",
+         old="    csr_peaks = np.where(csr_peaks < cut_off * np.max(abs(values)), 1.0e-14, csr_peaks)",
+         new="    vmax = np.max(abs(values)) if len(values) <= 5000 else np.max(abs(values[::4]))  # long records: maximum from every 4th sample\n"
+             "    csr_peaks = np.where(csr_peaks < cut_off * vmax, 1.0e-14, csr_peaks)",
+         why="window + option: more than 5000 samples and cut_off > 0 -> cut-off relative to a subsampled maximum"),
+    dict(id="c13-w-amp-f32-product-2e6", prop="C13", file="eqsig/im.py",
+         old="    if not hasattr(b, '__len__'):\n        return np.reshape(csr_n15_series1, len(values))\n    return csr_n15_series1",
+         new="    if not hasattr(b, '__len__'):\n        return np.reshape(csr_n15_series1, len(values))\n"
+             "    if len(values) * len(b) > 2000000:\n"
+             "        # large grids: one exponent at a time with a compact accumulator\n"
+             "        for j in range(len(b)):\n"
+             "            csr_n15_series1[:, j] = np.cumsum((np.abs(csr_peaks_s1) ** (1. / b[j]) / 2 / n_cyc).astype(np.float32)) ** b[j]\n"
+             "    return csr_n15_series1",
+         why="window: n x len(b) > 2e6 -> streamed per exponent with single-precision accumulation"),
+    dict(id="c13-w-amp-unique-100b", prop="C13", file="eqsig/im.py",
+         old="    csr_n15_series1 = np.cumsum((np.abs(csr_peaks_s1)[:, np.newaxis] ** (1. / b)) / 2 / n_cyc, axis=0) ** b\n    if not hasattr",
+         new="    if hasattr(b, '__len__') and len(b) > 100:\n"
+             "        b_u, b_pos = np.unique(b, return_index=True)  # evaluate each distinct exponent once\n"
+             "        csr_n15_series1 = np.zeros((len(values), len(b)))\n"
+             "        csr_n15_series1[:, b_pos] = np.cumsum((np.abs(csr_peaks_s1)[:, np.newaxis] ** (1. / b_u)) / 2 / n_cyc, axis=0) ** b_u\n"
+             "    else:\n"
+             "        csr_n15_series1 = np.cumsum((np.abs(csr_peaks_s1)[:, np.newaxis] ** (1. / b)) / 2 / n_cyc, axis=0) ** b\n    if not hasattr",
+         why="window: more than 100 exponents -> de-duplication that fills only the first occurrence of a repeated exponent"),
+    dict(id="c13-w-combined-tail-20000", prop="C13", file="eqsig/im.py",
+         old="    csr_n15_series = np.cumsum((np.abs(csr_peaks_s0) ** (1. / b) + np.abs(csr_peaks_s1) ** (1. / b)) / 2 / n_cyc) ** b\n",
+         new="    if len(values0) > 20000:\n"
+             "        terms = (np.abs(csr_peaks_s0) ** (1. / b) + np.abs(csr_peaks_s1) ** (1. / b)) / 2 / n_cyc\n"
+             "        acc = np.empty(len(terms))\n"
+             "        carry = 0.0\n"
+             "        n_full = len(terms) // 6000\n"
+             "        for k in range(n_full):\n"
+             "            acc[k * 6000:(k + 1) * 6000] = np.cumsum(terms[k * 6000:(k + 1) * 6000]) + carry\n"
+             "            carry = acc[(k + 1) * 6000 - 1]\n"
+             "        acc[n_full * 6000:] = carry\n"
+             "        csr_n15_series = acc ** b\n"
+             "    else:\n"
+             "        csr_n15_series = np.cumsum((np.abs(csr_peaks_s0) ** (1. / b) + np.abs(csr_peaks_s1) ** (1. / b)) / 2 / n_cyc) ** b\n",
+         why="window: more than 20000 samples -> blocked accumulation that drops the peaks of the last partial block"),
+    dict(id="c13-w-ncyc-cols-product-1.5e7", prop="C13", file="eqsig/im.py",
+         old="    f = interp1d(peak_indices, n_eq, kind='previous', axis=0)\n    n_series = f(np.arange(len(values)))\n",
+         new="    if hasattr(b, '__len__') and len(values) * len(b) > 15000000:\n"
+             "        n_series = np.zeros((len(values), len(b)))\n"
+             "        for j0 in range(0, len(b) - 63, 64):  # 64 exponents at a time\n"
+             "            n_series[:, j0:j0 + 64] = interp1d(peak_indices, n_eq[:, j0:j0 + 64], kind='previous', axis=0)(np.arange(len(values)))\n"
+             "    else:\n"
+             "        f = interp1d(peak_indices, n_eq, kind='previous', axis=0)\n        n_series = f(np.arange(len(values)))\n",
+         why="window: n x len(b) > 1.5e7 -> column-blocked expansion that drops the last partial block of exponents"),
+    # behaviour-preserving window refactorings: the new clauses must stay quiet
+    dict(id="c13-w-amp-block-correct", prop="C13", file="eqsig/im.py", expect="survive",
+         old="    csr_n15_series1 = np.cumsum((np.abs(csr_peaks_s1)[:, np.newaxis] ** (1. / b)) / 2 / n_cyc, axis=0) ** b\n    if not hasattr",
+         new="    blocks = []\n"
+             "    carry = 0.0\n"
+             "    for i0 in range(0, len(values), 5000):\n"
+             "        cum_blk = carry + np.cumsum((np.abs(csr_peaks_s1[i0:i0 + 5000])[:, np.newaxis] ** (1. / b)) / 2 / n_cyc, axis=0)\n"
+             "        blocks.append(cum_blk ** b)\n"
+             "        carry = cum_blk[-1]\n"
+             "    csr_n15_series1 = np.concatenate(blocks, axis=0)\n    if not hasattr",
+         why="correct blocked accumulation (carry = running total): must not be reported"),
+    dict(id="c13-w-delta-block-correct", prop="C13", file="eqsig/fns/peaks_and_crossings.py", expect="survive",
+         old="    delta_peaks = np.diff(peak_values)\n    delta_peaks = np.insert(delta_peaks, 0, 0)\n",
+         new="    if len(peak_values) > 2500:\n"
+             "        delta_peaks = np.concatenate([[0]] + [np.diff(peak_values[max(i0 - 1, 0):i0 + 1000]) for i0 in range(1, len(peak_values), 1000)])\n"
+             "    else:\n"
+             "        delta_peaks = np.diff(peak_values)\n"
+             "        delta_peaks = np.insert(delta_peaks, 0, 0)\n",
+         why="correct blocked differencing (blocks overlap by one peak): must not be reported"),
+    dict(id="c13-w-ncyc-stream-correct", prop="C13", file="eqsig/im.py", expect="survive",
+         old="    n_eq = np.cumsum(perc, axis=0)\n",
+         new="    if hasattr(b, '__len__') and perc.shape[0] * perc.shape[1] > 300000:\n"
+             "        n_eq = np.empty(perc.shape)\n"
+             "        for j in range(perc.shape[1]):\n"
+             "            n_eq[:, j] = np.cumsum(0.5 / (n_ref * (a_ref / csr_peaks) ** (1 / b[j])))\n"
+             "    else:\n"
+             "        n_eq = np.cumsum(perc, axis=0)\n",
+         why="correct per-exponent streaming above a product threshold: must not be reported"),
+]
